@@ -1,0 +1,1 @@
+//! Verification facade: `iotap` (feature `verif`).
